@@ -28,6 +28,7 @@ impl Default for C14 {
             "pause_in_force_at_last_second",
             "pause_expired_at_exact_second",
             "liquidation_on_paused_bank_rejected",
+            "risk_taken_with_reduce_only_collateral_present",
         ]);
         C14 { cov }
     }
@@ -193,6 +194,36 @@ impl Monitor for C14 {
             }
             let a = states[i];
             let b = states[i + 1];
+            // reduce-only collateral: "counts for nothing toward new borrowing" (and toward
+            // withdrawing other collateral), "but still counts for liquidation purposes"
+            if matches!(ix.tag, "borrow" | "withdraw") {
+                if let Some(k) = super::ix_user_account(ix) {
+                    if let (Some(pre), Some(post)) = (model::account_of(a, &k), model::account_of(b, &k)) {
+                        let in_bracket = pre.account_flags & (ACCOUNT_IN_FLASHLOAN | ACCOUNT_IN_RECEIVERSHIP) != 0;
+                        let ro: Vec<Pubkey> = post
+                            .lending_account
+                            .balances
+                            .iter()
+                            .filter(|x| x.active != 0 && q_w(x.asset_shares) >= model::qi(1))
+                            .filter(|x| model::bank_of(b, &x.bank_pk).map(|bk| bk.config.operational_state == BankOperationalState::ReduceOnly).unwrap_or(false))
+                            .map(|x| x.bank_pk)
+                            .collect();
+                        let has_debt = post.lending_account.balances.iter().any(|x| x.active != 0 && q_w(x.liability_shares) >= model::qi(1));
+                        if !in_bracket && !ro.is_empty() && has_debt {
+                            self.cov.probe("risk_taken_with_reduce_only_collateral_present");
+                            // Ref values reduce-only deposits at nil for the initial requirement
+                            if let Ok(h) = crate::refm::health(b, &post, crate::refm::Req::Init, s.clock) {
+                                self.cov.eval(format!("{}|reduce_only_collateral|emode{}|ok", ix.tag, (!crate::refm::reconciled_emode(b, &post).is_empty()) as u8));
+                                if h.net() < -h.err.clone() {
+                                    out.push(viol("C14", "reduce_only_deposits_counted_toward_new_borrowing", ix.tag,
+                                        format!("account {k}: without the reduce-only deposits in {:?} initial health is {} (assets {} liabilities {})",
+                                            ro, model::q_str(&h.net()), model::q_str(&h.assets), model::q_str(&h.liabs)), idx));
+                                }
+                            }
+                        }
+                    }
+                }
+            }
             // bank-state cells: a successful financial instruction on a bank in a forbidden state
             for (bk, role) in fin_banks(ix) {
                 let Some(bank) = model::bank_of(a, &bk) else { continue };
